@@ -41,6 +41,7 @@ def _run_job(job):
     e = core.Engine(max_paths=job.get('max_paths'), deadline=job.get('deadline'), prefix=job.get('prefix'),
                     fixed=job.get('fixed'), chunk=job.get('chunk'), seed=job.get('seed', 0),
                     sample_every=job.get('sample_every', 0), max_failures=job.get('max_failures', 6))
+    e.known_sigs = [(kid, re.compile(rx)) for kid, rx in job.get('known', [])]
     e.twin = bool(job.get('twin'))
     if e.twin:
         _install_twin(e)
@@ -52,7 +53,7 @@ def _run_job(job):
         if reset:
             reset()
     r = {'job': _jobkey(job), 'stats': e.stats(), 'failures': e.failures, 'degraded': e.degraded,
-         'samples': e.samples, 'conts': e.conts, 'idx': job.get('idx')}
+         'samples': e.samples, 'conts': e.conts, 'idx': job.get('idx'), 'known_hits': e.known_hits}
     return r
 
 
@@ -71,7 +72,8 @@ def _jobkey(job):
 # ------------------------------------------------------------------------------------------ replay side
 def replay_records(prop, records, twin=False):
     """run in a fresh interpreter WITHOUT the import hook; returns one verdict per record"""
-    payload = json.dumps({'prop': prop, 'records': records, 'twin': twin})
+    payload = json.dumps({'prop': prop, 'records': records, 'twin': twin,
+                          'known': [(k['id'], k['sig']) for k in load_known(prop) if k.get('status') == 'known']})
     env = dict(os.environ, PYTHONHASHSEED='0', SXV_CONCRETE='1')
     p = subprocess.run([sys.executable, '-m', 'sxv.run', '--replay-batch', '-'], input=payload.encode(), cwd=ROOT,
                        env=env, stdout=subprocess.PIPE, stderr=subprocess.PIPE, timeout=1800)
@@ -89,23 +91,24 @@ def _replay_batch_main():
     mod = _load(data['prop'], instrumented=False)
     out = []
     for rec in data['records']:
-        out.append(_replay_one(mod, rec, data.get('twin')))
+        out.append(_replay_one(mod, rec, data.get('twin'), data.get('known')))
     print('REPLAY-RESULT ' + json.dumps(out))
 
 
-def _replay_one(mod, rec, twin=False):
+def _replay_one(mod, rec, twin=False, known=None):
     from sxv import core
     h = getattr(mod, rec['harness'])
     reset = getattr(mod, 'reset', None)
     if reset:
         reset()
     e = core.ConcreteEngine(rec.get('inputs') or {}, rec.get('choices'))
+    e.known_sigs = [(kid, re.compile(rx)) for kid, rx in (known or [])]
     if twin:
         orig = e.check
         e.check = lambda cond, what='', sig=None: orig(False, 'TWIN ' + str(what), 'twin')
     try:
         st = e.run(lambda en: h(en, **rec.get('params', {})))
-        res = {'status': st, 'failed': e.failed, 'obs': e.obs}
+        res = {'status': st, 'failed': e.failed, 'obs': e.obs, 'known': e.known_hits}
     except BaseException as ex:     # noqa
         tb = traceback.extract_tb(ex.__traceback__)
         loc = '%s:%s' % (tb[-1].filename.split('/')[-1], tb[-1].lineno) if tb else '?'
@@ -188,6 +191,8 @@ def main():
         print('INCONCLUSIVE property=%s model self-test failed: %s' % (prop, st['failed'][:3]))
         return sys.exit(3)
 
+    known = load_known(prop)
+    known_pairs = [(k['id'], k['sig']) for k in known if k.get('status') == 'known']
     jobs = list(mod.jobs(tier, seed))
     if a.only:
         jobs = [j for j in jobs if a.only in j.get('label', j['harness'])]
@@ -195,6 +200,7 @@ def main():
         j.setdefault('label', j['harness'])
         j.setdefault('seed', seed)
         j['deadline'] = deadline
+        j['known'] = known_pairs
         j.setdefault('sample_every', getattr(mod, 'SAMPLE_EVERY', {'quick': 40, 'thorough': 200})[tier])
     twins = [dict(j, twin=True, max_paths=j.get('twin_paths', 60), sample_every=0, max_failures=2,
                   label=j['label'] + '#twin') for j in jobs if j.get('twin_me', False) or not j.get('no_twin')]
@@ -296,9 +302,22 @@ def main():
                 twin_bad.append(rec['label'] + ' (concrete twin did not fail: %s)' % v['status'])
 
     # 2. replay counterexamples and degraded paths against the uninstrumented package
-    known = load_known(prop)
     viol, knownhits, unrepro, degr_viol = [], {}, [], []
     cand = []
+    # witnesses of listed known findings seen by the workers: each must still reproduce concretely to be reported as such
+    kh = {}
+    for r in results:
+        for kid, w in (r.get('known_hits') or {}).items():
+            kh.setdefault(kid, dict(w, harness=r['job']['harness'], params=r['job'].get('params', {}), label=r['job'].get('label')))
+    if kh:
+        kids = sorted(kh)
+        for kid, v in zip(kids, replay_records(prop, [kh[k] for k in kids])):
+            sigs = [f['sig'] for f in v.get('failed', [])]
+            kdef = [k for k in known if k['id'] == kid][0]
+            if kid in (v.get('known') or []):
+                knownhits[kid] = (kdef, kh[kid])
+            else:
+                unrepro.append((dict(kh[kid], what='known finding %s' % kid), v))
     seen = set()
     for f in failures:
         key = (f['harness'], json.dumps(f['params'], sort_keys=True), f['sig'])
